@@ -21,13 +21,17 @@ pub static DEF: CheckDef = CheckDef {
     crashy: false,
     floors: &[
         ("clients>=2", 0.55),
-        ("bounded-transport", 0.40),
+        ("bounded-transport", 0.50),
         ("drop-with-inflight", 0.25),
-        ("cross-client-race", 0.15),
+        ("cross-client-race", 0.18),
         ("proto-1.14", 0.25),
-        ("final:drop-all", 0.30),
-        ("chan:items-flowed", 0.04),
-        ("call:answered", 0.20),
+        ("final:drop-all", 0.25),
+        ("final:broker-shutdown-connection", 0.10),
+        ("chan:items-flowed", 0.15),
+        ("call:answered", 0.15),
+        ("cross-client-channel", 0.20),
+        ("event:received", 0.01),
+        ("bus-event:received", 0.03),
     ],
     extra: None,
     extra_coverage: None,
@@ -39,10 +43,10 @@ fn plan(t: Tier) -> Vec<ClassPlan> {
         Tier::Thorough => 20,
     };
     vec![
-        ClassPlan { class: "prog", cases: 24_000 * k, min_len: 24, max_len: 420 },
-        ClassPlan { class: "claims", cases: 5_000 * k, min_len: 24, max_len: 300 },
-        ClassPlan { class: "late-abort", cases: 3_000 * k, min_len: 24, max_len: 300 },
-        ClassPlan { class: "listener-after-destroy", cases: 2_000 * k, min_len: 24, max_len: 300 },
+        ClassPlan { class: "prog", cases: 60_000 * k, min_len: 24, max_len: 420 },
+        ClassPlan { class: "claims", cases: 8_000 * k, min_len: 24, max_len: 300 },
+        ClassPlan { class: "late-abort", cases: 4_000 * k, min_len: 24, max_len: 300 },
+        ClassPlan { class: "listener-after-destroy", cases: 3_000 * k, min_len: 24, max_len: 300 },
     ]
 }
 
